@@ -91,6 +91,7 @@ type simWaiter struct {
 // simSys is the harness-side view of one logical log: the world plus the
 // reference model of what has been committed and acknowledged.
 type simSys struct {
+	admittedBeforeIssuer int
 	t    simFataler
 	w    *simWorld
 	key  *ecdsa.PrivateKey
@@ -333,8 +334,10 @@ func (s *simSys) submit(ctx context.Context, in *simInst, e *simEntry, low bool)
 		for _, iss := range e.P.Issuers {
 			b, ok := s.w.obj(fmt.Sprintf("issuer/%x", sha256.Sum256(iss)))
 			if !ok || !bytes.Equal(b, iss) {
+				// not a violation by itself: the statement asks for the issuer to exist when a checkpoint that
+				// covers the entry becomes readable, which the audit at publication decides; counted as an observation
 				s.w.mu.Lock()
-				s.w.violate("entry %d admitted (source %s) while its issuer %x is not in storage", e.ID, src, sha256.Sum256(iss))
+				s.admittedBeforeIssuer++
 				s.w.mu.Unlock()
 			}
 		}
